@@ -48,6 +48,27 @@ class DieOnPickle:
         return (str, ("never",))
 
 
+def _kill_siblings(parent):
+    """SIGKILL the other worker processes of the same parent (they are idle: this call has a single batch)"""
+    me = os.getpid()
+    for d in os.listdir("/proc"):
+        if not d.isdigit() or int(d) == me:
+            continue
+        try:
+            with open(f"/proc/{d}/stat") as f:
+                st = f.read()
+            ppid = int(st[st.rindex(")") + 2:].split()[1])
+            with open(f"/proc/{d}/cmdline", "rb") as f:
+                cmd = f.read()
+        except (OSError, ValueError):
+            continue
+        if ppid == parent and b"popen_loky" in cmd and b"resource_tracker" not in cmd:
+            try:
+                os.kill(int(d), signal.SIGKILL)
+            except OSError:
+                pass
+
+
 _ARMED = []
 
 
@@ -82,7 +103,10 @@ def task(i, tag, fault, dur):
     if instant == "task_start":
         die(how)
     if instant == "mid_task_slow":
-        time.sleep(fault.get("after", 0.6))
+        time.sleep(fault.get("after", 0.6) / 2)
+        if fault.get("kill_siblings"):
+            _kill_siblings(fault["parent"])
+        time.sleep(fault.get("after", 0.6) / 2)
         die(how)
     if instant == "mid_task":
         time.sleep(dur / 2)
